@@ -7,7 +7,8 @@ META = dict(
               "file system, step-by-step comparison with a reference model of the statement",
     text="For each of the 7 rules x field selection {all, one} (plus, for change and update, logs with two - thorough also three - loggees, "
          "each with its own write operation, two-loggee logs whose first or second loggee has never been stamped and is written "
-         "with the non-stamping Share.change, and change-rule logs whose field selection names a field the share lacks at START - in first, "
+         "with the non-stamping Share.change, the degenerate always/once/update/change logs with an empty field selection (no loggee; loggee share without fields at START), "
+         "and change-rule logs whose field selection names a field the share lacks at START - in first, "
          "middle and last position - that is created later with None or with a value): breadth-first search, with canonical-state dedupe, over every history "
          "of up to 6 (quick) / 12 (thorough) operations after START from the alphabet {RUN, tick, write same value, write different "
          "value, write other field, push to deck / append to streak list (a proper entry by a producer that re-fetches the container from the "
@@ -55,6 +56,10 @@ def alphabet(rule, sel="all"):
         # through the reference it obtained once, before the first drain; j: next junk element (cycles)
         return ["R", "T", "q", "qa", "j", "wb", "X"]
     extra = ["%sd" % t for t in MULTI.get(sel, [])]  # yd / zd: write a different value to that loggee
+    if sel == "no-loggee":                           # nothing to write to: runs, ticks, restart
+        return ["R", "T", "X"]
+    if sel == "empty-share":                         # ws: share.update() ; wd: creates / changes field a (no restart:
+        return ["R", "T", "ws", "wd"]                # a second prepare() would pick the new field up, unspecified)
     if sel in ABSENT_SEL:                            # kn / kv: create-or-write field c with None / with a value
         return ["R", "T", "wd", "wb", "kn", "kv", "X"]
     if sel in UNSTAMPED:                             # cx / cy: Share.change() (no stamp) on the unstamped loggee
@@ -70,6 +75,10 @@ def kind_of(e):
         return "m"
     return repr(e)
 
+
+# Degenerate logs whose prepared field selection is empty: no loggee at all, or a loggee share that
+# has no field when the logger starts (no field list given; the share is filled at run time).
+EMPTY_SEL = ("no-loggee", "empty-share")
 
 # Field selections naming a field (c) the share does not have at START, in every position.
 ABSENT_SEL = {"abs-first": ["c", "a", "b"], "abs-mid": ["a", "c", "b"], "abs-last": ["a", "b", "c"]}
@@ -87,6 +96,8 @@ ABSENT = _Absent()
 
 def selected_fields(rule, sel):
     """Fields the log is expected to show (statement: 'field selection')."""
+    if sel in EMPTY_SEL:
+        return []
     if sel in ABSENT_SEL:
         return list(ABSENT_SEL[sel])
     if rule == "streak":
@@ -96,6 +107,8 @@ def selected_fields(rule, sel):
 
 def given_fields(rule, sel):
     """fields= argument handed to addLoggee."""
+    if sel in EMPTY_SEL:
+        return None
     if sel in ABSENT_SEL:
         return list(ABSENT_SEL[sel])
     if rule == "deck":
@@ -119,7 +132,7 @@ class Ref:
         self.others = list(MULTI.get(sel, []))      # tags of the further loggees
         self.ov = dict((t, 0) for t in self.others)
         self.now = 0.0
-        self.a = 0
+        self.a = ABSENT if sel == "empty-share" else 0
         self.b = 0
         self.c = ABSENT              # field the share lacks until kn / kv creates it
         self.queue = []
@@ -134,7 +147,9 @@ class Ref:
         self.sent = False            # a control was sent to the logger in this tick
         self.restarted = False
         cols = (["%s.%s" % (TAG, f) for f in self.fields] if len(self.fields) > 1 else [TAG]) + self.others
-        self.header = "text\t%s\t%s\n_time\t%s\n" % (RULENAME[rule], BASE, "\t".join(cols))
+        if sel == "no-loggee":
+            cols = []                # a loggee with an empty selection still gets its tag column, no loggee gets none
+        self.header = "text\t%s\t%s\n_time%s\n" % (RULENAME[rule], BASE, "".join("\t" + c for c in cols))
 
     def values(self):
         d = dict(a=self.a, b=self.b, c=self.c)
@@ -208,7 +223,7 @@ class Ref:
             self.pending = True
             self.wstamp = self.now
         elif op == "wd":
-            self.a = (self.a + 1) % 3
+            self.a = 1 if self.a is ABSENT else (self.a + 1) % 3
             self.pending = True
             self.wstamp = self.now
         elif op == "wb":
@@ -284,13 +299,14 @@ class Impl:
         self.rule = rule
         self.fs = vfs.VFS()
         self.undo = vfs.install(self.fs)
-        init = [("a", [] if rule == "streak" else 0), ("b", 0)]
+        init = None if sel in EMPTY_SEL else [("a", [] if rule == "streak" else 0), ("b", 0)]
         self.w = vfs.LogWorld(self.fs, getattr(g, rule.upper()),
                               fields=given_fields(rule, "all" if sel in MULTI else sel),
                               share_init=init, tick=TICK, base=BASE, tag=TAG,
                               logger_kw=dict(reuse=(sel != "one")),
                               more_loggees=[(t, "mc." + t, None, [("a", 0)]) for t in MULTI.get(sel, [])],
-                              unstamped=["mc." + UNSTAMPED[sel]] if sel in UNSTAMPED else ())
+                              unstamped=["mc." + UNSTAMPED[sel]] if sel in UNSTAMPED else (),
+                              no_loggee=(sel == "no-loggee"))
         self.npush = 0
         self.njunk = 0
         # the producer's own reference to the queue object, taken once before anything is drained
@@ -308,9 +324,9 @@ class Impl:
         if op == "T":
             return w.advance()
         if op == "ws":
-            return sh.update(a=sh["a"])
+            return sh.update(a=sh["a"]) if "a" in sh else sh.update()
         if op == "wd":
-            return sh.update(a=(sh["a"] + 1) % 3)
+            return sh.update(a=(sh["a"] + 1) % 3 if "a" in sh else 1)
         if op == "wb":
             return sh.update(b=(sh["b"] + 1) % 3)
         if op == "q":
@@ -381,9 +397,9 @@ class Impl:
         if self.rule == "change":
             lasts = tuple(sorted((t, tuple(sorted(vars(d).items()))) for t, d in w.log.lasts.items()))
         sh = w.share
-        a = sh["a"]
+        a = sh["a"] if "a" in sh else "absent"
         return (w.logger.status, w.logger.desire, age(w.log.stamp), age(sh.stamp), age(w.logger.stamp),
-                tuple(kind_of(e) for e in a) if isinstance(a, list) else a, sh["b"], sh["c"] if "c" in sh else "absent",
+                tuple(kind_of(e) for e in a) if isinstance(a, list) else a, sh["b"] if "b" in sh else "absent", sh["c"] if "c" in sh else "absent",
                 None if self.alias is None else (self.current() is self.alias, tuple(kind_of(e) for e in self.alias)),
                 tuple(kind_of(e) for e in sh.deck), lasts,
                 tuple((n, o["a"], age(o.stamp)) for n, o in sorted(w.shares.items()) if o is not sh),
@@ -437,7 +453,8 @@ def diverge(node, hist, part, stage):
     replay = dict(rule=rule, fields=sel, history=list(hist), tick=TICK,
                   how="LogWorld(fs, rule, fields, share a/b) ; START/R/STOP = logger.runner.send(...) ; T = store.changeStamp(+tick) ; "
                       "ws/wd/wb = share.update(a=same / a=(a+1)%3 / b=(b+1)%3) ; yd/zd = the same on the further loggee shares mc.y / mc.z "
-                      "(fields=two/three: log.addLoggee(tag='y', loggee='mc.y'), ...) ; fields=abs-first/mid/last: fields=['c','a','b'] etc. with no field c in the share at START, kn = "
+                      "(fields=two/three: log.addLoggee(tag='y', loggee='mc.y'), ...) ; fields=no-loggee: the log has no loggee ; fields=empty-share: store.create('mc.x') without "
+                      "fields, no field list, ws = share.update(), wd = share.update(a=1 or (a+1)%3) ; fields=abs-first/mid/last: fields=['c','a','b'] etc. with no field c in the share at START, kn = "
                       "share.update(c=None), kv = share.update(c=1 or (c+1)%3) ; fields=two-x0 / two-y0: share mc.x / mc.y is initialised "
                       "with Share.change() so its stamp is None, cx / cy = share.change(a=(a+1)%3) on it ; q = deck push(odict(a=n,b=10n)) / list append(n) ; "
                       "qa = the same through the reference to share.deck / share['a'] taken once right after construction ; "
@@ -603,6 +620,8 @@ def run():
               "two-x0": depth if core.TIER == "quick" else 9, "two-y0": depth if core.TIER == "quick" else 9}
     items += [(r, s, mdepth[s]) for r in ("change", "update") for s in (("two", "three") if core.TIER != "quick" else ("two",))]
     items += [(r, s, mdepth[s]) for r in ("update", "change") for s in ("two-x0", "two-y0")]
+    # degenerate logs with an empty field selection: records hold the time stamp only
+    items += [(r, s, depth) for r in ("always", "once", "update", "change") for s in EMPTY_SEL]
     # rule change with a selected field the share lacks at START (first / middle / last position)
     items += [("change", s, depth if core.TIER == "quick" else 9) for s in sorted(ABSENT_SEL)]
     items += [("grid", r, s, maxlen) for r in QUEUE for s in ("all", "one")]
@@ -634,6 +653,10 @@ def run():
         "fields=two-x0 / two-y0: loggee x / y is initialised and written with Share.change(), which leaves share.stamp None; such a write "
         "is not an 'update' (no record promised by rule update) but is a value change for rule change; stamped updates of the other "
         "loggee must be recorded whatever the position of the unstamped one",
+        "fields=no-loggee / empty-share: a log whose prepared field selection is empty still writes one record per rule firing, holding "
+        "the time stamp only (header '_time' resp. '_time<TAB>tag'); with no logged field, 'change' fires at its first run only; 'update' fires "
+        "on every stamped write of the (field-less) loggee and never without a loggee.  This is what the unchanged tree does and what the "
+        "statement's per-rule record counts demand.  No restart for empty-share: a second prepare() would pick up fields created meanwhile",
         "fields=abs-*: a selected field the share does not have is an empty column; when the field appears (with None or a value) the "
         "logged field differs from its last logged value, so rule change promises a record; changes of the other selected fields must be "
         "recorded whatever the position of the absent one",
